@@ -179,7 +179,7 @@ Print Assumptions C07_refusal_restores_live_teids.
    The full statement is FALSE of the code: a Session Modification whose Create PDR carries, in
    one PDI, an F-TEID with CHOOSE and an F-TEID with an explicit TEID makes the session claim a
    TEID it was never given (the handler sets the flag and the TEID but allocates nothing); when
-   that session ends, the TEID - possibly that of another live session - is released (finding F36). *)
+   that session ends, the TEID - possibly that of another live session - is released (finding F38). *)
 Theorem C07_history_invariant_refuted : exists retries access (draws : nat -> stream) es w,
   ((offset (w_gen w) < MAXV /\ NoDup (used (w_gen w)) /\ Forall (fun o => o < MAXV) (used (w_gen w))) /\
    NoDup (map (fun s => (s_conn s, s_seid s)) (w_sess w)) /\
